@@ -5,11 +5,11 @@ import Netpoll.ShardInv.RingAll
 import Netpoll.ShardInv.Ids
 import Netpoll.ShardInv.IdsW
 import Netpoll.ShardInv.Misc
+import Netpoll.ShardInv.Close
 /-! The full invariant `Good`, its preservation by every step, and the lift to `Reachable`. -/
 namespace Netpoll.Shard
 
-/-- the invariant of the ShardQueue model; the ring / pending-trigger part is only claimed for
-    executions in which no `Add()` without getters was started (`emptyAdds = 0`) -/
+/-- the invariant of the ShardQueue model -/
 structure Good (s : S) : Prop where
   st : GStruct s
   lk : GLock s
@@ -17,7 +17,9 @@ structure Good (s : S) : Prop where
   ex : GExcl s
   ids : GIds s
   ms : GMisc s
-  rp : s.emptyAdds = 0 → GRing s ∧ GPend s
+  rg : GRing s
+  pd : GPend s
+  cl : GClose s
 
 theorem gids_step (s s' : S) (a : Act) (h : GIds s) (hs : step s a = some s') : GIds s' := by
   cases a with
@@ -29,35 +31,15 @@ theorem gids_step (s s' : S) (a : Act) (h : GIds s) (hs : step s a = some s') : 
   | tail pc => exact gids_tail s s' pc h hs
   | closer pc => exact gids_closer s s' pc h hs
 
-theorem emptyAdds_mono (s s' : S) (a : Act) (hs : step s a = some s') : s.emptyAdds ≤ s'.emptyAdds := by
-  cases a with
-  | add n => simp only [step] at hs; cases hs; simp; split <;> omega
-  | close => simp only [step] at hs; cases hs; simp
-  | die => simp only [step] at hs; cases hs; simp
-  | adder i =>
-    simp only [step, stepAdder] at hs
-    (repeat' split at hs) <;> (try cases hs) <;> simp [setAdder, spawnWorker]
-  | wk n e =>
-    simp only [step, stepWorker] at hs
-    (repeat' split at hs) <;> (try cases hs) <;> simp [endDeal]
-  | tail pc =>
-    cases pc <;> simp only [step, stepTail] at hs <;>
-    (repeat' split at hs) <;> (try cases hs) <;> simp [spawnWorker]
-  | closer pc =>
-    cases pc <;> simp only [step, stepCloser] at hs <;>
-    (repeat' split at hs) <;> (try cases hs) <;> simp
-
 theorem good_step (s s' : S) (a : Act) (h : Good s) (hs : step s a = some s') : Good s' := by
-  refine ⟨gstruct_step s s' a h.st hs, glock_step s s' a h.lk hs, gtrig_step s s' a h.tr hs,
-          gexcl_step s s' a h.ex hs, gids_step s s' a h.ids hs, gmisc_step s s' a h.ms hs, ?_⟩
-  intro hc
-  have hm := emptyAdds_mono s s' a hs
-  have h0 : s.emptyAdds = 0 := by omega
-  obtain ⟨hR, hP⟩ := h.rp h0
-  exact ringpend_step s s' a hc h.st hR hP h.tr hs
+  have hrp := ringpend_step s s' a h.st h.rg h.pd h.tr hs
+  exact ⟨gstruct_step s s' a h.st hs, glock_step s s' a h.lk h.ms hs, gtrig_step s s' a h.tr hs,
+         gexcl_step s s' a h.ex hs, gids_step s s' a h.ids hs, gmisc_step s s' a h.ms hs, hrp.1, hrp.2,
+         gclose_step s s' a h.st h.ids h.tr h.ms h.cl hs⟩
 
 theorem good_init (n : Nat) : Good (init n) :=
-  ⟨gstruct_init n, glock_init n, gtrig_init n, gexcl_init n, gids_init n, gmisc_init n, fun _ => ringpend_init n⟩
+  ⟨gstruct_init n, glock_init n, gtrig_init n, gexcl_init n, gids_init n, gmisc_init n,
+   (ringpend_init n).1, (ringpend_init n).2, gclose_init n⟩
 
 theorem good_run (acts : List Act) : ∀ (s s' : S), Good s → run s acts = some s' → Good s' := by
   induction acts with
